@@ -239,6 +239,37 @@ def authOnly (lower : Bytes → Bytes) (P : Policy) (now : Int) (r : ReqIn) (c :
   | .ok _ => { outcome := .accepted, writes := o.writes, calls := o.calls, branch := o.branch }
   | .error _ => { outcome := .unauthorized, writes := o.writes, calls := o.calls, branch := o.branch }
 
+/-- `OAuthProxy.Favicon`: `Authenticate`, then (on success) the whole of `Proxy` — which authenticates again with the
+*same* request cookie. -/
+def favicon (lower : Bytes → Bytes) (P : Policy) (now : Int) (r : ReqIn) (c : CookieIn) (a : Ans) : HandlerOut :=
+  let o := authenticate lower P now r.host c a
+  match o.res with
+  | .error _ => { outcome := .notFound, writes := o.writes, calls := o.calls, branch := "favicon/" ++ o.branch }
+  | .ok _ =>
+    let p := proxy lower P now r c a
+    { outcome := p.outcome, writes := o.writes ++ p.writes, calls := o.calls ++ p.calls, branch := "favicon/" ++ p.branch }
+
+/-! ### host routing (internal/pkg/hostmux) -/
+
+structure RouteEntry where
+  isRegexp : Bool
+  host : String          -- static: the exact Host value; regexp: unused
+  deriving Repr
+
+/-- `Router.Route`: exact static match first (a later registration of the same host replaces the earlier one), then the
+first regexp route, in registration order, whose pattern matches (`matches i` = oracle for entry `i`); else none (421). -/
+def routeHost (table : List RouteEntry) (matchesRe : Nat → Bool) (host : String) : Option Nat :=
+  let idx := (List.range table.length).zip table
+  match (idx.filter fun p => !p.2.isRegexp && p.2.host = host).getLast? with
+  | some p => some p.1
+  | none => (idx.find? fun p => p.2.isRegexp && matchesRe p.1).map (·.1)
+
+/-- the route table of `OAuthProxy.Handler`: six exact paths, everything else to `Proxy` -/
+def handlerOf (path : String) : String :=
+  match path with
+  | "/favicon.ico" => "Favicon" | "/robots.txt" => "RobotsTxt" | "/oauth2/v1/certs" => "Certs" | "/oauth2/sign_out" => "SignOut"
+  | "/oauth2/callback" => "OAuthCallback" | "/oauth2/auth" => "AuthenticateOnly" | _ => "Proxy"
+
 /-! ### login callback -/
 
 /-- result of `Redeem` at the authenticator, as the proxy sees it -/
